@@ -122,13 +122,14 @@ _SEPS_BS = ['\\', '\\', '\\', '\\\\', '\\\\\\']
 _SEPS_FS = ['/', '/', '/', '//', '///']
 _SEPS_MIX = ['\\', '/', '\\', '/', '\\/', '/\\', '\\\\', '//', '\\//\\']
 _META_CHARS = set('.^$*+?{}[]|()\\')
+_REGEX_META = _META_CHARS - {'.', '\\'}
 
 CONTENT_CLASSES = ['none', 'noise', 'plain-exists', 'dir-exists', 'numbered-gap', 'numbered-all-taken',
                    'zero-padded', 'bak-suffix', 'numbered-no-plain', 'sibling-ext', 'dl-missing']
 _GAP_VARIANTS = [['1', '3'], ['2', '3'], ['1', '2', '4'], ['3'], ['1', '2', '3', '5', '6'], ['2']]
 _PAD_VARIANTS = [['01'], ['01', '2'], ['1', '02'], ['001', '1'], ['01', '02', '03']]
 _NOISE = ['a+b (1).mp3', '[x].mp3', '(y).mp3', 'x (1).mp3', 'y (1).mp3', 'aab (1).mp3', 'other.txt',
-          'track', ' (1)', '. (1)', 'noext']
+          'track', ' (1)', '. (1)', '.. (1)', 'noext']
 
 
 def _own_split(path: str) -> list[str]:
@@ -368,7 +369,8 @@ def _judge(res: dict, chain: str, remote_path: str, kinds: list[str], cls: str, 
     # R-name
     runner.add_obs(res, 'name_checks')
     if name in ('', '.', '..') or '/' in name or '\\' in name:
-        runner.violation(res, f'name:{chain}:{mech}', **ctx)
+        runner.violation(res, f"name:{mech}:{'prod' if chain.startswith('prod') else 'chain'}", **ctx)
+        return  # containment of an invalid name is the same mechanism: reported once
 
     # R-contain (+ R-dotdot): strictly below the download directory, by realpath
     # and without any '..' component in the un-normalised part below it
@@ -387,7 +389,7 @@ def _judge(res: dict, chain: str, remote_path: str, kinds: list[str], cls: str, 
     else:
         failed.append('dir-not-prefixed-by-download-dir')
     if failed:
-        runner.violation(res, f'contain:{chain}:{mech}', failed=failed,
+        runner.violation(res, f"contain:{mech}:{'prod' if chain.startswith('prod') else 'chain'}", failed=failed,
                          realpath_rel_to_download_dir=os.path.relpath(real, base), **ctx)
 
     # R-fresh: only where the duplicate strategy has the last word
@@ -397,7 +399,8 @@ def _judge(res: dict, chain: str, remote_path: str, kinds: list[str], cls: str, 
         if comps and name != comps[-1]:
             runner.add_obs(res, 'fresh_renamed')
         if os.path.lexists(full):
-            existing = 'regex-meta' if (kinds and kinds[-1] == 'meta') else cls
+            # label: a candidate name with regex metacharacters is its own mechanism class
+            existing = 'regex-meta' if (comps and set(comps[-1]) & _REGEX_META) else cls
             typ = 'dir' if os.path.isdir(full) else 'file'
             runner.violation(res, f'fresh:{chain}:{existing}', exists_as=typ,
                              listing=sorted(os.listdir(d))[:40] if os.path.isdir(d) else None, **ctx)
@@ -461,7 +464,9 @@ def _run_paths(params: dict) -> dict:
             comps = _own_split(rp)
             kinds = [_kind_of(c) for c in comps]
             sepc = _sep_class(rp)
-            nameless = not comps
+            # no component that could be a file name: '', '.' and '..' are not names
+            # (statement: "never '.', '..' or empty"), rejecting such a path is not judged
+            nameless = not [c for c in comps if c not in ('.', '..')]
             interacts = cls not in ('none', 'noise', 'dl-missing')
             nontrivial = len(comps) >= 2 or interacts
             runner.add_cover(res, 'content_classes', cls)
